@@ -23,6 +23,8 @@ import (
 	"sync"
 
 	"google.golang.org/grpc"
+	"google.golang.org/grpc/metadata"
+	"google.golang.org/grpc/status"
 )
 
 type key int
@@ -114,17 +116,86 @@ func (cs *gcpClientStream) SendMsg(m interface{}) error {
 	return cs.ClientStream.SendMsg(m)
 }
 
+// waitStream waits until cs.ClientStream is initialized, the initialization failed, or the
+// context of the call is done. Returns the initialized ClientStream or an error.
+func (cs *gcpClientStream) waitStream() (grpc.ClientStream, error) {
+	cs.Lock()
+	defer cs.Unlock()
+	if cs.initStreamErr == nil && cs.ClientStream == nil && cs.ctx.Err() == nil {
+		stop := make(chan struct{})
+		defer close(stop)
+		go func() {
+			select {
+			case <-cs.ctx.Done():
+				// Make sure the waiter is in cond.Wait() or has not checked the context yet.
+				cs.Lock()
+				cs.Unlock()
+				cs.cond.Broadcast()
+			case <-stop:
+			}
+		}()
+	}
+	for cs.initStreamErr == nil && cs.ClientStream == nil && cs.ctx.Err() == nil {
+		cs.cond.Wait()
+	}
+	if cs.ClientStream != nil {
+		return cs.ClientStream, nil
+	}
+	if cs.initStreamErr != nil {
+		return nil, cs.initStreamErr
+	}
+	return nil, status.FromContextError(cs.ctx.Err()).Err()
+}
+
 func (cs *gcpClientStream) RecvMsg(m interface{}) error {
 	// If RecvMsg is called before SendMsg, it should wait until cs.ClientStream
 	// is initialized or the initialization failed.
+	realCS, err := cs.waitStream()
+	if err != nil {
+		return err
+	}
+	return realCS.RecvMsg(m)
+}
+
+// Header waits for the underlying ClientStream like RecvMsg does.
+func (cs *gcpClientStream) Header() (metadata.MD, error) {
+	realCS, err := cs.waitStream()
+	if err != nil {
+		return nil, err
+	}
+	return realCS.Header()
+}
+
+// Trailer returns nil if the underlying ClientStream is not created yet.
+func (cs *gcpClientStream) Trailer() metadata.MD {
 	cs.Lock()
-	for cs.initStreamErr == nil && cs.ClientStream == nil {
-		cs.cond.Wait()
-	}
-	if cs.initStreamErr != nil {
-		cs.Unlock()
-		return cs.initStreamErr
-	}
+	realCS := cs.ClientStream
 	cs.Unlock()
-	return cs.ClientStream.RecvMsg(m)
+	if realCS == nil {
+		return nil
+	}
+	return realCS.Trailer()
+}
+
+// CloseSend is a no-op if the underlying ClientStream is not created yet.
+func (cs *gcpClientStream) CloseSend() error {
+	cs.Lock()
+	realCS := cs.ClientStream
+	cs.Unlock()
+	if realCS == nil {
+		return nil
+	}
+	return realCS.CloseSend()
+}
+
+// Context returns the context of the underlying ClientStream or the context of the call if the
+// underlying ClientStream is not created yet.
+func (cs *gcpClientStream) Context() context.Context {
+	cs.Lock()
+	realCS := cs.ClientStream
+	cs.Unlock()
+	if realCS == nil {
+		return cs.ctx
+	}
+	return realCS.Context()
 }
